@@ -647,6 +647,20 @@ class World:
         self.model.owner = lookup
         try:
             inbox, closed = self.barrier(nicks)
+        except Inconclusive as ex:
+            if "monitor connection closed" in str(ex) and 0 not in exp.closes:
+                # nothing in this step may end the monitor's session: either the whole server stopped after a
+                # command that should have been refused / harmless, or a bystander was disconnected
+                time.sleep(0.3)
+                gone = not self.srv.alive()
+                self.shapes[exp.shape] += 1
+                self.violate("server-stopped" if gone else "bystander-closed", exp.props | {"C05"}, exp.shape,
+                             "%s after %r (expected: %s)" % (
+                                 "the server process ended" if gone else "the monitor client's connection was closed",
+                                 self.history[-1][1] if self.history else "", exp.shape))
+                self.dead = True
+                return self.violations[V0:]
+            raise
         finally:
             self.model.owner = save_owner
         if self.lost_barrier is not None:
